@@ -274,6 +274,9 @@ func cmdBatch(args []string) {
 			distinct[h64(k)] = true
 		}
 		fmt.Fprintf(evf, "%d %s %d\n", s, run.EventHash(), len(run.Events))
+		if d := os.Getenv("DSTSIM_EVENTS_DIR"); d != "" {
+			ioutil.WriteFile(filepath.Join(d, fmt.Sprintf("ev-%d.txt", s)), []byte(strings.Join(run.Events, "\n")+"\n"), 0644)
+		}
 		if len(st.Samples) < 2 && len(run.Desc) > 0 {
 			st.Samples = append(st.Samples, run.Desc)
 		}
@@ -376,6 +379,9 @@ func cmdReplay(args []string) {
 		t = tape.New(rf.Seed) // seed-only replay
 	}
 	run := runOne(e, t, rf.Tier)
+	if p := os.Getenv("DSTSIM_EVENTS"); p != "" {
+		ioutil.WriteFile(p, []byte(strings.Join(run.Events, "\n")+"\n"), 0644) // full event log, for determinism debugging
+	}
 	if *asJSON {
 		out := map[string]interface{}{"used": t.Used(), "violation": run.Viol, "description": run.Desc, "events": tail(run.Events, 200)}
 		b, _ := json.Marshal(out)
